@@ -140,10 +140,27 @@ STATUSES = [
     ('child-killed-by-signal', 11 | 0x80),
     ('child-killed-by-signal', 15),
 ]
-EXEC_FNS = ('execvp', 'execv', 'execve', 'execvpe', 'execl', 'execlp', 'execle', 'fexecve', 'posix_spawn', 'posix_spawnp')
+EXEC_FNS = ('execvp', 'execv', 'execve', 'execvpe', 'execl', 'execlp', 'execle', 'fexecve')
 FORK_FNS = ('fork', 'vfork')
-WAIT_FNS = {'wait': 0, 'waitpid': 1}
-WAIT_UNMODELLED = ('wait3', 'wait4', 'waitid')
+# process creation without a child-side path in this program.  Each family reports "no process was started" in its
+# own way: fork -1; posix_spawn* a POSITIVE errno value (never -1, errno is not set; glibc >= 2.24 reports a failed exec of
+# the child the same way, POSIX also allows a child that exits with 127); system -1, otherwise the wait status itself
+SPAWN_FNS = ('posix_spawn', 'posix_spawnp')
+SYSTEM_FNS = ('system',)
+LAUNCH_FNS = FORK_FNS + SPAWN_FNS + SYSTEM_FNS
+LAUNCH_KIND = dict([(f, 'fork') for f in FORK_FNS] + [(f, 'spawn') for f in SPAWN_FNS] + [(f, 'system') for f in SYSTEM_FNS])
+LAUNCH_UNMODELLED = ('popen', 'clone', 'clone3', 'forkpty', 'daemon')
+SPAWN_ERRNOS = (('ENOENT', 2), ('EAGAIN', 11))     # program not found (exec-time failure) / no process could be created
+# name -> (index of the status pointer, index of the options argument or None)
+WAIT_FNS = {'wait': (0, None), 'waitpid': (1, 2), 'wait3': (0, 1), 'wait4': (1, 2)}
+WAIT_UNMODELLED = ()
+# waitid(idtype, id, siginfo_t *, options) reports through si_code / si_status instead of an encoded status word.
+# Enumerators and macros of <sys/wait.h> / <signal.h> (Linux/glibc values); siginfo_t as glibc lays it out
+# (si_status is _sifields._sigchld.si_status)
+SYS_ENUMERATORS = {'P_ALL': 0, 'P_PID': 1, 'P_PGID': 2, 'P_PIDFD': 3,
+                   'CLD_EXITED': 1, 'CLD_KILLED': 2, 'CLD_DUMPED': 3, 'CLD_TRAPPED': 4, 'CLD_STOPPED': 5, 'CLD_CONTINUED': 6}
+WNOHANG, WEXITED, WNOWAIT = 1, 4, 0x01000000
+SIGCHLD = 17
 HARD_EXIT = ('_exit', '_Exit', 'abort', 'quick_exit')      # terminate without running atexit handlers
 SOFT_EXIT = ('exit',)
 ERROR_FNS = ('error', 'error_at', 'error_tok')              # R14.7: end in exit(1)
@@ -200,18 +217,18 @@ def make_interp(P, unit, opaque=(), extra_models=None, loop_limit=1, globals_=No
     def m_wait(it, ctx, n, args):
         st = proc_state(ctx)
         name = n.callee()
-        idx = WAIT_FNS[name]
+        idx, oidx = WAIT_FNS[name]
         st['waits'] += 1
         if st['children'] <= 0:
             ctx.note('%s()=-1 [no child]' % name)
             return -1
-        if name == 'waitpid':
-            opts = args[2] if len(args) > 2 else 0
+        if oidx is not None:
+            opts = args[oidx] if len(args) > oidx else 0
             if not isinstance(opts, int):
-                raise AnalysisBroken('waitpid options %r not understood (%s:%d)' % (opts, it.unit.name, n.line))
+                raise AnalysisBroken('%s options %r not understood (%s:%d)' % (name, opts, it.unit.name, n.line))
             if opts & 1:    # WNOHANG: the child may still be running
-                if ctx.choose(2, 'waitpid WNOHANG') == 1:
-                    ctx.note('waitpid(WNOHANG)=0 [child still running]')
+                if ctx.choose(2, '%s WNOHANG' % name) == 1:
+                    ctx.note('%s(WNOHANG)=0 [child still running]' % name)
                     return 0
         st['children'] -= 1
         i = ctx.choose(len(STATUSES), 'wait status')
@@ -226,6 +243,79 @@ def make_interp(P, unit, opaque=(), extra_models=None, loop_limit=1, globals_=No
         else:
             raise AnalysisBroken('%s: status pointer %r not understood (%s:%d)' % (name, p, it.unit.name, n.line))
         return PID
+
+    def m_waitid(it, ctx, n, args):
+        st = proc_state(ctx)
+        st['waits'] += 1
+        opts = args[3] if len(args) > 3 else None
+        if not isinstance(opts, int) or isinstance(opts, bool) or not (opts & WEXITED) or (opts & ~(WNOHANG | WEXITED | WNOWAIT)):
+            raise AnalysisBroken('waitid options %r not understood (%s:%d)' % (opts, it.unit.name, n.line))
+        if st['children'] <= 0:
+            ctx.note('waitid()=-1 [no child]')
+            return -1
+        p = args[2] if len(args) > 2 else 0
+        info = p if isinstance(p, Obj) else None
+        if info is None and not (isinstance(p, int) and p == 0):
+            raise AnalysisBroken('waitid: siginfo pointer %r not understood (%s:%d)' % (p, it.unit.name, n.line))
+        chld = None
+        if info is not None:
+            sif = info.fields.get('_sifields')
+            chld = sif.fields.get('_sigchld') if isinstance(sif, Obj) else None
+            if not isinstance(chld, Obj):
+                raise AnalysisBroken('waitid: siginfo object %r not understood (%s:%d)' % (p, it.unit.name, n.line))
+        if opts & WNOHANG and ctx.choose(2, 'waitid WNOHANG') == 1:
+            ctx.note('waitid(WNOHANG)=0 [child still running]')
+            if info is not None:
+                info.fields['si_signo'] = 0; chld.fields['si_pid'] = 0
+            return 0
+        if not (opts & WNOWAIT):
+            st['children'] -= 1
+        i = ctx.choose(len(STATUSES), 'wait status')
+        cls, val = STATUSES[i]
+        st['status'] = (cls, val)
+        if val & 0x7f:
+            code, sval = (3 if val & 0x80 else 2), val & 0x7f
+        else:
+            code, sval = 1, (val >> 8) & 0xff
+        ctx.note('waitid(): si_code=%d si_status=%d [%s]' % (code, sval, cls))
+        if info is None:
+            st['status_dropped'] = True
+        else:
+            info.fields.update({'si_signo': SIGCHLD, 'si_errno': 0, 'si_code': code})
+            chld.fields.update({'si_pid': PID, 'si_uid': 0, 'si_status': sval})
+        return 0
+
+    def m_spawn(it, ctx, n, args):
+        st = proc_state(ctx)
+        name = n.callee()
+        if st['role'] == 'child' or st['forks'] >= 1:
+            raise AnalysisBroken('%s() is reached after another process creation on one path (%s:%d): process tree not modelled' % (name, it.unit.name, n.line))
+        st['forks'] += 1
+        i = ctx.choose(1 + len(SPAWN_ERRNOS), name)
+        if i == 0:
+            st['role'] = 'parent'; st['children'] += 1
+            ctx.note('%s()=0 [child started]' % name)
+            p = args[0] if args else 0
+            if isinstance(p, _Ref):
+                p.place.set(it, PID)
+            return 0
+        ename, eno = SPAWN_ERRNOS[i - 1]
+        st['role'] = 'spawn-failed'; st['launch_error'] = ename; st['launch_api'] = name
+        ctx.note('%s()=%d [%s, no child; pid not written]' % (name, eno, ename))
+        return eno
+
+    def m_system(it, ctx, n, args):
+        st = proc_state(ctx)
+        if st['role'] == 'child' or st['forks'] >= 1:
+            raise AnalysisBroken('system() is reached after another process creation on one path (%s:%d): process tree not modelled' % (it.unit.name, n.line))
+        st['forks'] += 1
+        i = ctx.choose(1 + len(STATUSES), 'system')
+        if i == 0:
+            st['role'] = 'fork-failed'; ctx.note('system()=-1 [no child]'); return -1
+        cls, val = STATUSES[i - 1]
+        st['role'] = 'parent'; st['status'] = (cls, val)
+        ctx.note('system(): status=%#x [%s]' % (val, cls))
+        return val
 
     def m_exec(it, ctx, n, args):
         st = proc_state(ctx)
@@ -250,6 +340,11 @@ def make_interp(P, unit, opaque=(), extra_models=None, loop_limit=1, globals_=No
         models[f] = m_wait
     for f in EXEC_FNS:
         models[f] = m_exec
+    models['waitid'] = m_waitid
+    for f in SPAWN_FNS:
+        models[f] = m_spawn
+    for f in SYSTEM_FNS:
+        models[f] = m_system
     models['calloc'] = m_calloc
     models['malloc'] = m_calloc
     models['memcpy'] = m_nop
@@ -266,10 +361,27 @@ def make_interp(P, unit, opaque=(), extra_models=None, loop_limit=1, globals_=No
 
     def default_value(t, name, zero=False):
         v = orig_default(t, name, zero)
+        if v is _UNINIT or (isinstance(v, int) and not isinstance(v, bool) and v == 0):
+            tt = (t or '').replace('struct ', '').strip()
+            if tt in ('siginfo_t', 'siginfo') and tt not in unit.records:
+                def f(x):
+                    return 0 if zero else Sym('uninit:%s.%s' % (name, x), 'int')
+                chld = Obj(None, lazy=False, fields=dict((x, f(x)) for x in ('si_pid', 'si_uid', 'si_status')))
+                return Obj(None, lazy=False, label=name,
+                           fields={'si_signo': f('si_signo'), 'si_errno': f('si_errno'), 'si_code': f('si_code'),
+                                   '_sifields': Obj(None, lazy=False, fields={'_sigchld': chld})})
         if v is _UNINIT:
             return Sym('uninit:%s' % name, t)
         return v
     it.default_value = default_value
+    orig_declref = it.e_DeclRefExpr
+
+    def e_DeclRefExpr(n, env):
+        # enumerators of system headers are not part of the unit's tables
+        if n.ref_kind == 'EnumConstantDecl' and n.ref_name in SYS_ENUMERATORS and it.unit.enum_value(n.ref_name) is None:
+            return SYS_ENUMERATORS[n.ref_name]
+        return orig_declref(n, env)
+    it.e_DeclRefExpr = e_DeclRefExpr
     orig_call = it.call_fn
 
     def call_fn(unit_, fn, args):
